@@ -29,12 +29,13 @@ WARN_RE = re.compile(r"^> > > *[^\s(]+\((\d+)\)(?::\d+)?: *warning #(\d+)")
 
 
 class Case:
-    __slots__ = ("tgt", "cpu", "pc", "mn", "args", "text", "real", "tag", "load")
+    __slots__ = ("tgt", "cpu", "pc", "mn", "args", "text", "real", "tag", "load", "defs")
 
     def __init__(self, tgt, cpu, pc, mn, args, text, tag=""):
         self.tgt, self.cpu, self.pc, self.mn, self.args, self.text, self.tag = tgt, cpu, pc, mn, list(args), text, tag
         self.real = None
         self.load = None     # load address when the statement stands in a PHASE block whose execution address is pc
+        self.defs = None     # definition lines of the symbols the operand text uses (None: derived from the text, see defs_for)
 
     def req(self):
         return "%s %d %d %s %s | %s" % (self.tgt, self.cpu, self.pc, self.mn, " ".join(str(a) for a in self.args), self.real)
@@ -46,15 +47,49 @@ class Case:
         d = dict(target=self.tgt, cpu=self.cpu, pc=self.pc, mnemonic=self.mn, args=self.args, source=self.text, real=self.real)
         if self.load is not None:
             d["load"] = self.load
+        ds = self.defs if self.defs is not None else defs_for(self.text)
+        if ds:
+            d["defs"] = ds
         return d
 
 
 # ----------------------------------------------------------------------------------------------
 # number spelling (Intel syntax: 4004, 8080; Motorola syntax: PIC, 6502)
 
+# Operand values written through SYMBOLS instead of literal numbers: with probability SYM_SHARE a number speller returns the
+# name of a fresh symbol; its definition (EQU / SET / label-style `=`-free forms only, possibly an alias of another fresh
+# symbol) is emitted right before the statement that uses it (always defined before use: no forward references).
+SYM_SHARE = 0.05
+_SYMS = {}           # lower-case name -> list of definition lines (dependencies first)
+_SYM_RE = re.compile(r"(?i)(?<![a-z0-9_$.])sy\d+(?![a-z0-9_$.])")
+
+
+def _symbol(rng, v):
+    n = "sy%d" % len(_SYMS)
+    d = rng.choice(["equ", "equ", "set"])
+    lines = ["%s\t%s\t%d" % (n, d, v)]
+    _SYMS[n] = lines
+    if rng.random() < 0.3:          # alias of the symbol
+        n2 = "sy%d" % len(_SYMS)
+        _SYMS[n2] = lines + ["%s\t%s\t%s" % (n2, rng.choice(["equ", "set"]), n.upper() if rng.random() < 0.5 else n)]
+        n = n2
+    return n.upper() if rng.random() < 0.3 else n
+
+
+def defs_for(text):
+    out = []
+    for m in _SYM_RE.findall(text):
+        for l in _SYMS.get(m.lower(), []):
+            if l not in out:
+                out.append(l)
+    return out
+
+
 def num_intel(rng, v):
     if v < 0:
         return "-" + num_intel(rng, -v)
+    if rng.random() < SYM_SHARE:
+        return _symbol(rng, v)
     k = rng.random()
     if k < 0.5:
         return str(v)
@@ -67,6 +102,8 @@ def num_intel(rng, v):
 def num_moto(rng, v):
     if v < 0:
         return "-" + num_moto(rng, -v)
+    if rng.random() < SYM_SHARE:
+        return _symbol(rng, v)
     k = rng.random()
     if k < 0.5:
         return str(v)
@@ -102,10 +139,18 @@ class T4004:
     cpus = [("4004", 0), ("4040", 1)]
     sentinel = 0xE80
     gran = 1
+    # register aliases (REG / EQU / SET, aliases of aliases) of the sixteen registers and the eight pairs, defined at the top
+    REG_SHAPES = ["a_r%d", "e_r%d", "s_r%d", "re_r%d", "rer_r%d"]
+    PAIR_SHAPES = ["a_p%d", "e_p%d", "re_p%d"]
+    ALIAS_DEFS = ([("a_r%d" % n, "reg", "r%d" % n) for n in range(16)] + [("e_r%d" % n, "equ", "R%d" % n) for n in range(16)]
+                  + [("s_r%d" % n, "set", "r%d" % n) for n in range(16)] + [("re_r%d" % n, "reg", "e_r%d" % n) for n in range(16)]
+                  + [("rer_r%d" % n, "equ", "RE_R%d" % n) for n in range(16)]
+                  + [("a_p%d" % p, "reg", "r%dp" % p) for p in range(8)] + [("e_p%d" % p, "equ", "R%dR%d" % (2 * p, 2 * p + 1)) for p in range(8)]
+                  + [("re_p%d" % p, "reg", "e_p%d" % p) for p in range(8)])
 
-    @staticmethod
-    def header(cpuname):
-        return ["\tcpu %s" % cpuname]
+    @classmethod
+    def header(cls, cpuname):
+        return ["\tcpu %s" % cpuname] + ["%s\t%s\t%s" % d for d in cls.ALIAS_DEFS]
 
     @staticmethod
     def org(a):
@@ -119,16 +164,22 @@ class T4004:
     def sent_bytes(k):
         return bytes([k % 100 + 1])
 
-    @staticmethod
-    def reg(rng, r):
+    @classmethod
+    def reg(cls, rng, r):
+        if 0 <= r <= 15 and rng.random() < 0.25:
+            t = rng.choice(cls.REG_SHAPES) % r
+            return t.upper() if rng.random() < 0.3 else t
         if 10 <= r <= 15 and rng.random() < 0.3:
             return "R" + "ABCDEF"[r - 10]
         if r < 10 and rng.random() < 0.2:
             return "r%02d" % r
         return "R%d" % r
 
-    @staticmethod
-    def pair(rng, p):
+    @classmethod
+    def pair(cls, rng, p):
+        if 0 <= p <= 7 and rng.random() < 0.25:
+            t = rng.choice(cls.PAIR_SHAPES) % p
+            return t.upper() if rng.random() < 0.3 else t
         if rng.random() < 0.5:
             return "R%dP" % p
         return "R%dR%d" % (2 * p, 2 * p + 1)
@@ -388,7 +439,12 @@ def observe(T, bdir, wd, cpuname, cases, stats):
         # one statement per case, each behind its own ORG, followed by a sentinel record
         lines = T.header(cpuname)
         owner = {}
+        emitted = set()
         for k, c in enumerate(live):
+            for dl in (c.defs if c.defs is not None else defs_for(c.text)):
+                if dl not in emitted:        # an operand text (and its symbol) may be shared by several cases
+                    emitted.add(dl)
+                    lines.append(dl)
             if c.load is None:
                 lines.append(T.org(c.pc))
                 lines.append(c.text)
@@ -459,6 +515,7 @@ def run_target(T, bdir, wd, rng, tier, stats, extra_cases=()):
             seen.add(k)
             uniq.append(c)
     cases = uniq
+    stats["cases_with_symbolic_operand_values"] = stats.get("cases_with_symbolic_operand_values", 0) + sum(1 for c in cases if _SYM_RE.search(c.text))
     # a share of the cases (and more of those with PC-relative or page-relative operands) is assembled inside a PHASE block
     REL = ("rel", "branch", "jcn", "isz", "jr", "djnz", "rjmp", "jmp", "goto", "sym")
     for c in cases:
@@ -469,7 +526,7 @@ def run_target(T, bdir, wd, rng, tier, stats, extra_cases=()):
             ld = c.pc ^ 0x40
             if abs(ld - T.sentinel) > 8:
                 c.load = ld
-    problems = []
+    problems = list(getattr(T, "pre_problems", lambda: [])())     # a plug-in's own model-vs-spec comparisons made while generating
     for cpuname, idx in T.cpus:
         sub = [c for c in cases if c.cpu == idx]
         if sub:
@@ -518,6 +575,7 @@ def load_corpus():
             if f.endswith(".json"):
                 for e in json.load(open(os.path.join(cdir, f))):
                     out.append(Case(e["target"], e["cpu"], e["pc"], e["mnemonic"], e["args"], e["source"], "corpus:" + f))
+                    out[-1].defs = e.get("defs", [])
     return out
 
 
@@ -569,7 +627,7 @@ def run(args):
         samples=samples, distribution=dist, harness=stats,
         targets_modelled=sorted(TARGETS), targets_not_modelled=[t for t in ALL_PROPERTY_TARGETS if t not in TARGETS],
         exhaustive=False)
-    res.assumptions = ["operands are literal numbers/register names (expression evaluation is C08's subject; no forward references, no questionable symbols)",
+    res.assumptions = ["operands are literal numbers / register names or single symbols defined before use with EQU / SET / REG, also aliases of such symbols (expression evaluation is C08's subject; no forward references, no questionable symbols)",
                        "the SPEC opcode maps are the author's transcription of the manufacturers' manuals"]
     return common.conclude(res, proof_problems, spec_fail, corr_fail, total)
 
@@ -584,6 +642,7 @@ def replay(args):
         common.lean_build(["asldrv"])
         c = Case(d["target"], d["cpu"], d["pc"], d["mnemonic"], d["args"], d["source"], "replay")
         c.load = d.get("load")
+        c.defs = d.get("defs", [])
         stats = dict(asl_runs=0, asl_lines=0, warnings={})
         with common.Workdir("c14r") as wd:
             cpuname = [n for n, i in T.cpus if i == c.cpu][0]
